@@ -49,6 +49,13 @@ def setup_impl_path():
     """Make `import AdvancedHTMLParser` resolve to the current working tree of $AHP_REPO."""
     if sys.path[0] != REPO:
         sys.path.insert(0, REPO)
+    import warnings
+    warnings.simplefilter('ignore')
+    import AdvancedHTMLParser
+    got = os.path.realpath(os.path.dirname(AdvancedHTMLParser.__file__))
+    want = os.path.realpath(os.path.join(REPO, 'AdvancedHTMLParser'))
+    if got != want:
+        raise MachineryError('the library was imported from %s, not from %s' % (got, want))
     import pdb
 
     def _no_debugger(*a, **k):
